@@ -10,7 +10,7 @@ from props import packlib as P
 from props.C10 import sx  # s-expression reader (also raises the coqc stack limit)
 
 ID = "C08"
-THEOREMS = []
+THEOREMS = ["C08_resolution_sound", "C08_resolution_complete", "C08_idx_is_git", "C08_idx_canonical"]
 MODEL_FILES = ["PackBytes.v", "Idx.v", "PackParse.v"]
 MODELLED = (
     "plumbing/format/packfile: Scanner (pack header, objectEntry: entry-size varint, OFS varint with "
@@ -102,7 +102,7 @@ class Main(Suite):
     name = "main"
     go_cmd = "c08"
     coq_imports = "From GoGit Require Import Model.PackParse."
-    quick_n = 48
+    quick_n = 40
     thorough_n = 600
     coq_chunk = 6
 
